@@ -7,6 +7,15 @@
 //! (1,0,-2), (1,1,0)) x offsets: 0.5 outside either end of the mesh's extent along the normal (miss), odd sixteenths of the
 //! extent, 0.25 and 2^-12 inside either end (single corners cut off: 3-segment loops, segments shorter than 1e-3).
 //! Planes with a mesh vertex closer than 1e-5 are skipped ("through vertices avoided by a margin").
+//! Rigid motion: every section / split is repeated on the moved mesh with the plane moved by Plane3::transform_by (5 motions:
+//! cube-group rotations with integer translations and one general rotation by 0.7 rad about (1,2,2) followed by
+//! (0.5,-1.25,2) - it turns every normal of the list and translates along it); transform_by itself is compared with the
+//! written-out image plane (R n, d + R n . t).
+//! Constructors: the same solids rebuilt with Mesh::new_with_options(is_solid = true; the 4 merge / delete option pairs),
+//! Mesh::new_with_uv and create_box(.., true) - split areas must still sum to the original (a mesh that carries parry's
+//! pseudo-normals is CAPPED by parry's split).
+//! Several solids: rows of 2, 5, 6 and 10 disjoint boxes of different sizes in ONE mesh (appended, or built with
+//! new_with_options): as many closed loops as boxes crossed, each crossing segment used exactly once.
 //! Only watertight meshes are sectioned in the main loop: parry 0.18's intersection_with_local_plane does not terminate
 //! on an open chain (one such input is run LAST, on a helper thread under a 2 s watchdog, under its own clause name).
 //! Oracle: every face is classified by the signs of its vertex distances; a face with vertices on both sides yields one
